@@ -240,7 +240,7 @@ def optUnion (o : Option Box) (b : Box) : Option Box :=
   | none => some b
 
 /-- `MaxBuilder::update` (metrics_and_limits.rs:191-226).
-    [NARROW] `… .sum::<usize>() as u16`, `contours.len() as u16`, `components().len() as u16`. -/
+    Unbounded counts; the code rejects counts above 65535 (`shapeCountsFit`, history: `as u16`). -/
 def MaxBuilder.update (b : MaxBuilder) (g : Glyph) : MaxBuilder :=
   let bbox := match g.bbox with
     | some bb => optUnion b.bbox bb
@@ -264,7 +264,8 @@ def MaxBuilder.update (b : MaxBuilder) (g : Glyph) : MaxBuilder :=
       bbox := bbox
       glyphInfo := b.glyphInfo ++ [⟨some {}, none⟩] }
 
-/-- the fold closure of metrics_and_limits.rs:257-264.  [NARROW] the two `+` are on u16, unchecked. -/
+/-- the fold closure in unbounded arithmetic (the arithmetic core; before 944e88e the two `+` were
+    unchecked u16 additions, now see `accLimitsC`). -/
 def accLimits (acc e : Limits) : Limits :=
   ⟨acc.maxPoints + e.maxPoints, acc.maxContours + e.maxContours, max acc.maxDepth (e.maxDepth + 1)⟩
 
@@ -349,6 +350,106 @@ def buildMaxp (gs : List Glyph) : Option Maxp :=
 
 /-- head x/y min/max: `max_builder.bbox.unwrap_or_default()` -/
 def headBbox (gs : List Glyph) : Box := ((maxBuilderOf gs).bbox).getD Box.zero
+
+/-! ### The code as of /repo 944e88e: counts and totals are range-checked
+
+  History: until 944e88e `MaxBuilder::update` narrowed with `as u16` and the fold closure added u16s
+  unchecked (debug: panic at metrics_and_limits.rs:260, release: wrap).  Now `update` rejects a count
+  above 65535 (`u16::try_from`), and the closure uses `checked_add`, saturating at `u16::MAX` and
+  recording the overflow; `update_composite_limits` returns `Err(OutOfBounds)` if any was recorded. -/
+
+/-- Outcome of a work item: a value, `Err(..)`, or a panic. -/
+inductive Outcome (α : Type) where
+  | ok (a : α)
+  | err
+  | panic
+  deriving Repr, DecidableEq, Inhabited
+
+/-- the fold closure now (metrics_and_limits.rs:271-285): `checked_add(..).unwrap_or_else(|| { overflow =
+    Some(gid); u16::MAX })`, `e.max_depth.saturating_add(1)`; the Bool is the `overflow` variable. -/
+def accLimitsC (acc : Limits × Bool) (e : Limits) : Limits × Bool :=
+  let p := acc.1.maxPoints + e.maxPoints
+  let c := acc.1.maxContours + e.maxContours
+  (⟨min p 65535, min c 65535, max acc.1.maxDepth (min (e.maxDepth + 1) 65535)⟩,
+   acc.2 || decide (65535 < p) || decide (65535 < c))
+
+/-- `stepGlyph` with the checked closure; the flag is threaded through -/
+def stepGlyphC (info : List GlyphInfo) (flag : Bool) (gid : Nat) : Option (Option (Limits × Bool)) :=
+  match info[gid]? with
+  | none => none
+  | some gi =>
+    match gi.components with
+    | none => none
+    | some comps =>
+      if comps.any (fun c => (info[c]?).isNone) then none
+      else
+        let ls := comps.map fun c => (info[c]?).bind (·.limits)
+        if ls.all Option.isSome then
+          some (some ((ls.filterMap id).foldl accLimitsC ({}, flag)))
+        else
+          some none
+
+def sweepC (info : List GlyphInfo) (overall : Limits) (flag : Bool) :
+    List Nat → Option (List GlyphInfo × Limits × Bool × List Nat)
+  | [] => some (info, overall, flag, [])
+  | gid :: rest =>
+    match stepGlyphC info flag gid with
+    | none => none
+    | some none =>
+      match sweepC info overall flag rest with
+      | none => none
+      | some (info', ov', f', kept) => some (info', ov', f', gid :: kept)
+    | some (some (l, f)) => sweepC (setLimits info gid l) (overall.max l) f rest
+
+def compositeLoopC (info : List GlyphInfo) (overall : Limits) (flag : Bool) (pending : List Nat) :
+    Option (Limits × Bool) :=
+  if _h : pending = [] then some (overall, flag)
+  else
+    match _hs : sweepC info overall flag pending with
+    | none => none
+    | some (info', ov', f', kept) =>
+      if _hl : kept.length < pending.length then compositeLoopC info' ov' f' kept else none
+termination_by pending.length
+
+/-- `MaxBuilder::update_composite_limits` as it is now -/
+def updateCompositeLimitsC (b : MaxBuilder) (pending : List Nat) : Outcome Limits :=
+  match compositeLoopC b.glyphInfo {} false pending with
+  | none => .panic
+  | some (_, true) => .err
+  | some (l, false) => .ok l
+
+/-- the `u16::try_from` checks of `MaxBuilder::update` (metrics_and_limits.rs:193-222) -/
+def shapeCountsFit : Shape → Bool
+  | .simple contours => decide ((contours.map List.length).sum ≤ 65535) && decide (contours.length ≤ 65535)
+  | .composite comps => decide (comps.length ≤ 65535)
+  | .empty => true
+
+/-- the maxp part of `MetricAndLimitWork::exec` as it is now; `glyph_order.len().try_into().unwrap()`
+    still panics above 65535 glyphs -/
+def buildMaxpC (gs : List Glyph) : Outcome Maxp :=
+  if gs.all (fun g => shapeCountsFit g.shape) then
+    let b := maxBuilderOf gs
+    match updateCompositeLimitsC b (compositeGids b.glyphInfo) with
+    | .ok l =>
+      if gs.length ≤ 65535 then
+        .ok ⟨gs.length, b.maxPoints, b.maxContours, l.maxPoints, l.maxContours, b.maxComponentElements, l.maxDepth⟩
+      else .panic
+    | .err => .err
+    | .panic => .panic
+  else .err
+
+/-- hmtx advance of a source width (metrics_and_limits.rs:357-368): `ot_round`, rejected with
+    `Err(OutOfBounds)` outside 0..=65535 (history: clamped by `as u16` before 944e88e). -/
+def advanceOfWidth (w : Rat) : Option Nat :=
+  let r := otRound w
+  if 0 ≤ r ∧ r ≤ 65535 then some r.toNat else none
+
+/-- vmtx advance (vertical_metrics.rs:79-92 + ir.rs `height`): an explicit height is range-checked like a
+    width; the fallback `typo ascender − typo descender` still goes through the saturating `as u16`. -/
+def advanceOfHeight (h : Option Rat) (asc desc : Rat) : Option Nat :=
+  match h with
+  | some h => advanceOfWidth h
+  | none => some (satU16 (otRound (asc - desc))).toNat
 
 /-! ### Independent specification of the composite limits
 
@@ -544,8 +645,9 @@ def ulp32 (x : Rat) : Rat :=
 /-- IEEE-754 binary32 round-to-nearest-even for `1 ≤ x < 2^127` (no overflow/subnormals here) -/
 def f32 (x : Rat) : Rat := roundToGrid (ulp32 x) x
 
-/-- `(total as f32 / count as f32).ot_round()` with `ot_round = (x + 0.5).floor() as i16` (os2.rs:248).
-    `count = 0` gives NaN, and `NaN as i16 = 0`.  [NARROW] `as i16` saturates. -/
+/-- HISTORY (until /repo d188b11): `(total as f32 / count as f32).ot_round()` with
+    `ot_round = (x + 0.5).floor() as i16`.  `count = 0` gave NaN, and `NaN as i16 = 0`; `as i16` saturates.
+    Off by one once the advances sum to 2^22 or more (FontcProps/C17.lean `avg_width_old_counterexample`). -/
 def avgOfF32 (count total : Nat) : Int :=
   if count = 0 then 0
   else if total = 0 then 0
@@ -558,18 +660,18 @@ def avgOfF32 (count total : Nat) : Int :=
 def avgOfExact (count total : Nat) : Int :=
   if count = 0 then 0 else otRound ((total : Rat) / (count : Rat))
 
-/-- The repaired computation proposed in /verif/fixes/C17-os2-avg.patch:
-    `(2 * total + count) / (2 * count)` in u64, `.min(i16::MAX) as i16`; 0 when nothing is counted. -/
+/-- The code now (os2.rs:248-256): `(2 * total + count) / (2 * count)` in u64, `.min(i16::MAX) as i16`;
+    0 when nothing is counted.  [NARROW] the `.min` saturates a mean above 32767. -/
 def avgOfInt (count total : Nat) : Int :=
   if count = 0 then 0 else satI16 (((2 * total + count) / (2 * count) : Nat) : Int)
 
-/-- `x_avg_char_width` after the repair -/
-def xAvgCharWidthFixed (longs : List LongMetric) (numGlyphs : Nat) : Int :=
+/-- `x_avg_char_width` as implemented -/
+def xAvgCharWidth (longs : List LongMetric) (numGlyphs : Nat) : Int :=
   let ct := avgCountTotal longs numGlyphs
   avgOfInt ct.1 ct.2
 
-/-- `x_avg_char_width` as implemented -/
-def xAvgCharWidth (longs : List LongMetric) (numGlyphs : Nat) : Int :=
+/-- HISTORY: `x_avg_char_width` before d188b11 (binary32 division) -/
+def avgWidthOld (longs : List LongMetric) (numGlyphs : Nat) : Int :=
   let ct := avgCountTotal longs numGlyphs
   avgOfF32 ct.1 ct.2
 
